@@ -505,7 +505,7 @@ def plan(tier, seed):
     for kind in 'TA':
         scheds = [0] if kind == 'A' else (
             [0, 1 + seed, 2 + seed] if tier == 'quick' else
-            [0] + [seed * 100 + k for k in range(1, 12)])
+            [0] + [seed * 1000 + k for k in range(1, 100)])
         for sc in scheds:
             for cell in cells:
                 # every cell as the first cycle, followed by a good one
@@ -513,7 +513,7 @@ def plan(tier, seed):
                 nxt = rng.choice(good)
                 cases.append({'kind': kind, 'sched': sc,
                               'cycles': [list(cell), list(nxt)]})
-            n3 = 40 if tier == 'quick' else 400
+            n3 = 40 if tier == 'quick' else 3000
             for _ in range(n3):
                 cases.append({'kind': kind, 'sched': sc, 'cycles': [
                     list(rng.choice(cells)) for _ in range(3)]})
@@ -521,7 +521,7 @@ def plan(tier, seed):
     n = 16
     shards = [{'cases': cases[i::n]} for i in range(n)]
     pre = []
-    for sd in (range(1, 6) if tier == 'quick' else range(1, 150)):
+    for sd in (range(1, 6) if tier == 'quick' else range(1, 600)):
         for tr in ('polling', 'websocket'):
             for racer in ('server-close', 'drop', 'two-disconnects'):
                 pre.append({'preempt': True, 'transport': tr, 'racer': racer,
